@@ -36,6 +36,16 @@ CHECKS = {
         "note": "Trusted: TLA+ transcription of the tile layout; hashes as free terms; distinct records; refmerkle builds the honest world. Bounds: tree size, heights, one or two corrupted tiles per read.",
         "technique": TLA + "adversarial reader state machine explored by TLC, terminal states replayed into the code, recorded reads trace-validated",
     },
+    "C01": {
+        "text": "Model checking with fault enumeration: the client is a TLA+ state machine (one action per external operation or critical section, tiles fetched and authenticated one by one with Tiles.tla) against an adversary corrupting 1-3 responses of any kind from network or cache; TLC checks ResultAuthentic, CacheAuthentic, ConfigAuthentic, HonestLive and the chain properties over log sizes 1-6/1-12, heights 1-2/1-3, cold/warm caches, restarts, growing server. Every complete behaviour is replayed into the real sumdb.Client against an independently built world with ground-truth observers on every ClientOps call (zero protocol drift on the unchanged tree); random multi-fault runs on trees up to 300/2000 records, heights 1-8, are trace-validated by SumdbMonitor.",
+        "note": "Trusted: hashes as free terms, signatures as facts (SHA-256, Ed25519), the sumworld builder and its labels. Bound: number of corrupted responses per behaviour and log size in the exhaustive part.",
+        "technique": TLA + "adversarial client state machine explored by TLC, behaviours replayed into the real client, recorded runs trace-validated by an observer specification",
+    },
+    "C13": {
+        "text": "Model checking: the same client specification with two timelines sharing a prefix of 0-3 records, a server that answers from either timeline and switches up to twice, one client across a restart or two clients sharing configuration and cache; TLC checks ConfigChain, MemChain, SecurityIsReal, SecurityHasBoth, CacheAuthentic. Every behaviour is replayed into the real client with observers for: stored head only moves to a signed extension, no two inconsistent heads stored, a presented fork fails the lookup and leaves the stored head alone, security reports carry both signed notes. Random forks at sizes up to 500 and heights up to 8 are trace-validated.",
+        "note": "Trusted: as C01. Fine-grained interleavings of clients writing the shared configuration are explored under C14's configurations; here multi-client histories are sequential per lookup.",
+        "technique": TLA + "two-timeline client state machine explored by TLC, behaviours replayed into the real client, recorded fork runs trace-validated",
+    },
 }
 
 NOT_APPLICABLE = {}
